@@ -1,7 +1,7 @@
 """Running the real opensmt binary with the trace hooks and replaying the trace through the Lean machine."""
 import os, subprocess, tempfile
 from pathlib import Path
-import common, trace, lacert
+import common, trace, lacert, eufcert
 
 
 def run_opensmt(binary, script_text, trace_path=None, timeout=20, args=(), env_extra=None):
@@ -50,6 +50,12 @@ def certify_theory_clauses(tr, sid, stats=None):
             out[k] = head + "LA " + " ".join(cert)
             if stats is not None:
                 stats["la"] = stats.get("la", 0) + 1
+            continue
+        cert = eufcert.cert_for(tt, tl)
+        if cert is not None:
+            out[k] = head + " ".join(cert)
+            if stats is not None:
+                stats["euf"] = stats.get("euf", 0) + 1
             continue
         out[k] = head + "NONE"
         if stats is not None:
